@@ -171,6 +171,14 @@ def check_exceptional_exit(ex, c, st, exc, short, entry):
                 facts += cxo.facts
     goal = z3.Or(conds) if conds else z3.BoolVal(False)
     ex.oblige(st, goal, '%s.raises.%s' % (short, exc.cls.__name__), 'exception-freedom', extra_hyps=facts)
+    if c.raise_ensures_l:
+        cx = SpecCtx(entry.entry_locals, st.heap, entry.entry_locals, entry.entry_heap, st, ex.frame)
+        for name, text in c.raise_ensures_l:
+            b = ex.S.eval_bool(text, cx)
+            ex.oblige(st, b, '%s.on_raise.%s' % (short, name), 'exceptional-postcondition', extra_hyps=cx.facts)
+            cx.facts = []
+        if c.kind != 'lemma':
+            check_frame(ex, c, st, short + '.on_raise', entry)
     if c.raise_keeps_heap and c.kind != 'lemma':
         pass
 
@@ -331,6 +339,7 @@ def discharge(world, ex, ob, unfold_depth, timeout_ms, seed, stages=True, effort
         for vi, (goal, extra) in enumerate(variants):
             s = z3.Solver()
             s.set('timeout', min(ms, timeout_ms))
+            s.set('rlimit', min(ms, timeout_ms) * 30000)      # deterministic work bound as well: wall-clock limits are not always honoured
             s.set('random_seed', sd)
             for a in _bg(world):
                 s.add(a)
